@@ -167,7 +167,47 @@ class Eval:
             if a[0] == "c" and b[0] == "c" and isinstance(a[1], int) and isinstance(b[1], int) and e[1] in ("add", "sub"):
                 return ("c", a[1] + b[1] if e[1] == "add" else a[1] - b[1])
             return (e[0], e[1], a, b)
+        if e and e[0] in ("idx", "ptradd") and len(e) >= 3 and isinstance(e[2], tuple) and len(e[2]) == 2 and e[2][0] == "arg":
+            # an index that is a parameter with a value given for this evaluation (a table indexed by an enum argument)
+            k = av_single(self.facts.get("a%d" % e[2][1]))
+            if k is not None:
+                return (e[0], self._concretise(e[1], depth + 1), ("c", k)) + tuple(e[3:])
         return tuple(self._concretise(x, depth + 1) if isinstance(x, tuple) else x for x in e)
+
+    def _from_constant_copy(self, pe):
+        """value of a cell of a local object whose bytes were copied from constant data (fact ("G", alloca) = (global, path))"""
+        r = pe
+        while isinstance(r, tuple) and r and r[0] in ("fld", "idx", "ptradd"):
+            r = r[1]
+        if not (isinstance(r, tuple) and r[0] == "alloca"):
+            return None
+        g = self.facts.get(("G", r[1]))
+        if g is None:
+            return None
+        path = self.flow._const_path(self.resolve(pe))
+        if path is None:
+            return None
+        gv = self.fn.pdb.glob_in(self.fn.unit, g[0])
+        cur = gv.get("init") if gv else None
+        for sgm in g[1] + tuple(reversed(path)):
+            if cur is None:
+                return None
+            if isinstance(sgm, tuple):
+                k = sgm[1]
+            else:
+                sname, fname = sgm.split(".", 1) if "." in sgm else (None, sgm)
+                st = self.fn.pdb.structs.get(sname) if sname else None
+                names = [f_["name"] for f_ in st["fields"]] if st else []
+                if fname.startswith("#") and fname[1:].isdigit():
+                    k = int(fname[1:])
+                elif fname in names:
+                    k = names.index(fname)
+                else:
+                    return None
+            if not isinstance(cur, list) or not (0 <= k < len(cur)):
+                return None
+            cur = cur[k]
+        return ("in", frozenset([cur])) if isinstance(cur, int) else None
 
     def alias_phis(self, e, depth=0):
         """e with every phi replaced by the expression of the value that reached it on this path (a cursor variable that still is
@@ -371,6 +411,9 @@ class Eval:
                     if ok and cur and all(isinstance(x, int) for x in cur) and len(cur) <= MAXSET:
                         return ("in", frozenset(cur))
             pe = self.flow.expr(d["ptr"])
+            v = self._from_constant_copy(pe)
+            if v is not None:
+                return v
             v = self.flow.hooks.load_override(pe, self)
             if v is None:
                 v = self.facts.get(("M", pe))
@@ -843,6 +886,8 @@ class Flow:
                 elif self.hooks.pinned(k[1]):
                     out[k] = v
                 continue
+            if isinstance(k, tuple) and k[0] == "G" and (k[1] in argroots or k[1] in self._escaped):
+                continue
             out[k] = v
         return out
 
@@ -901,7 +946,7 @@ class Flow:
             w = b.get(k)
             if w is None:
                 continue
-            if isinstance(k, tuple) and k[0] in ("A", "U", "S"):
+            if isinstance(k, tuple) and k[0] in ("A", "U", "S", "G"):
                 if v == w:
                     out[k] = v
                 continue
@@ -943,6 +988,11 @@ class Flow:
                 facts = self._settle(facts, self._kill_store(fp, pe), probes)
                 if v is not None:
                     facts[("M", pe)] = v
+                sr = pe
+                while isinstance(sr, tuple) and sr and sr[0] in ("fld", "idx", "ptradd"):
+                    sr = sr[1]
+                if isinstance(sr, tuple) and sr[0] == "alloca" and ("G", sr[1]) in facts:
+                    del facts[("G", sr[1])]
                 continue
             if op in ("call", "invoke"):
                 r = hooks.on_inst(inst, prop, E)
@@ -981,6 +1031,27 @@ class Flow:
                             continue
                         out[k] = v
                     facts = self._settle(before, out, probes)
+                    # a local object filled from constant data (a const table declared inside the function is copied from a private
+                    # global; an element of it copied into another local): remember where its bytes come from
+                    if r_alloca:
+                        facts = {k: v for k, v in facts.items() if not (isinstance(k, tuple) and k[0] == "G" and k[1] == root[1])}
+                        if cal.startswith(("llvm.memcpy", "llvm.memmove", "memcpy", "memmove")) and pe == root and len(inst.args) > 2:
+                            E0 = Eval(self, before)
+                            se = E0.resolve(self.expr(inst.args[1]))
+                            sroot = se
+                            while isinstance(sroot, tuple) and sroot and sroot[0] in ("fld", "idx", "ptradd"):
+                                sroot = sroot[1]
+                            spath = self._const_path(se)
+                            origin = None
+                            if isinstance(sroot, tuple) and sroot[0] == "g" and spath is not None:
+                                gv = self.fn.pdb.glob_in(self.fn.unit, sroot[1])
+                                if gv and gv.get("const") and isinstance(gv.get("init"), list):
+                                    origin = (sroot[1], tuple(reversed(spath)))
+                            elif isinstance(sroot, tuple) and sroot[0] == "alloca" and spath is not None and ("G", sroot[1]) in before:
+                                g0, p0 = before[("G", sroot[1])]
+                                origin = (g0, p0 + tuple(reversed(spath)))
+                            if origin is not None:
+                                facts[("G", root[1])] = origin
                 elif not (cal and hooks.pure(cal)):
                     fp, probes = self._probe(facts)
                     facts = self._settle(facts, self._kill_call(fp, inst), probes)
